@@ -30,6 +30,23 @@ CORPUS = [
          new="\th32 ^= h32 >> 12\n\th32 *= prime3\n\th32 ^= h32 >> 16\n\n\treturn h32\n}\n\n// Portable version of ChecksumZero."),
     dict(name="C13-reset-keeps-buffer", kind="break", props=["C13"], file="internal/xxh32/xxh32zero.go",
          old="\txxh.totalLen = 0\n\txxh.bufused = 0\n}", new="\txxh.totalLen = 0\n}"),
+    # ---- bounded stand-ins C01 / C04 / C12 ----
+    dict(name="C01-fast-match-not-verified", kind="break", props=["C01"], file="internal/lz4block/block.go",
+         old="if offset <= 0 || offset >= winSize || uint32(match>>8) != binary.LittleEndian.Uint32(src[ref2:]) {",
+         new="if offset <= 0 || offset >= winSize || uint16(match>>8) != binary.LittleEndian.Uint16(src[ref2:]) {"),
+    dict(name="C01-offset-bytes-swapped", kind="break", props=["C01"], file="internal/lz4block/block.go",
+         old="dst[di-2], dst[di-1] = byte(offset), byte(offset>>8)\n\n\t\t// Encode match length part 2.\n\t\tif mLen >= 0xF {\n\t\t\tfor mLen -= 0xF; mLen >= 0xFF && di < len(dst); mLen -= 0xFF {",
+         new="dst[di-1], dst[di-2] = byte(offset), byte(offset>>8)\n\n\t\t// Encode match length part 2.\n\t\tif mLen >= 0xF {\n\t\t\tfor mLen -= 0xF; mLen >= 0xFF && di < len(dst); mLen -= 0xFF {"),
+    dict(name="C04-portable-dict-index-off-by-one", kind="break", props=["C04", "C12"], file="internal/lz4block/decode_other.go",
+         old="fromDict := dict[uint(len(dict))+di-offset:]", new="fromDict := dict[uint(len(dict))+di-offset+1:]"),
+    dict(name="C04-asm-interior-match-short", kind="break", props=["C04", "C12"], file="internal/lz4block/decode_amd64.s",
+         old="\tCMPQ CX, $16\n", new="\tCMPQ CX, $17\n"),
+    dict(name="C14-hc-chain-table-not-cleared", kind="benign", props=["C14"], file="internal/lz4block/block.go",
+         old="\t\tc.hashTable = [htSize]int{}\n\t\tc.chainTable = [htSize]int{}\n", new="\t\tc.hashTable = [htSize]int{}\n"),
+    dict(name="C14-hc-hash-table-not-cleared", kind="break", props=["C14"], file="internal/lz4block/block.go",
+         old="\t\tc.hashTable = [htSize]int{}\n\t\tc.chainTable = [htSize]int{}\n", new="\t\tc.chainTable = [htSize]int{}\n"),
+    dict(name="C14-fast-partial-reset", kind="break", props=["C14"], file="internal/lz4block/block.go",
+         old="func (c *Compressor) reset() { c.inUse = [htSize / 32]uint32{} }", new="func (c *Compressor) reset() { c.inUse[0] = 0 }"),
     # ---- C16 / C02 (Reader window and delivery order) ----
     dict(name="C16-window-half-size", kind="break", props=["C16"], file="reader.go",
          old="preserveSize := 64*1024 - len(dst)", new="preserveSize := 32*1024 - len(dst)"),
